@@ -124,15 +124,16 @@ def writer_case(sc):
         else:
             ops.append(('s', op[1]))
     exc = sc.get('exc')
+    dest = sc.get('dest', DEST)
     files = {KEEP: KEEP_BYTES}
     if sc.get('old') is not None:
-        files[DEST] = bytes.fromhex(sc['old'])
+        files[dest] = bytes.fromhex(sc['old'])
     for n, h in (sc.get('decoys') or {}).items():
         files[n] = bytes.fromhex(h)
 
     def call(d):
         from srctools import AtomicWriter
-        path = os.path.join(d, DEST)
+        path = os.path.join(d, dest)
         w = AtomicWriter(path, is_bytes=True) if mode == 'b' else AtomicWriter(path, is_bytes=False, encoding=mode)
         with w as f:
             for k, op in enumerate(sc['script']):
@@ -148,7 +149,7 @@ def writer_case(sc):
                 raise EXC[exc[1]](BODY_MARK)
 
     new = replay_script(ops) if not exc else None
-    return Case({'kind': 'writer', 'sc': sc}, files, DEST, call, ops, exc[0] if exc else None, new)
+    return Case({'kind': 'writer', 'sc': sc}, files, dest, call, ops, exc[0] if exc else None, new)
 
 
 def classify(e):
@@ -734,7 +735,7 @@ def check_two(ctx, res, desc):
 
 
 def explore_two(ctx, sb, mb):
-    cap = ctx.budget(700, 6000)
+    cap = ctx.budget(420, 6000)
     for label, sc1, sc2, faults, decoys in two_cases(ctx):
         stack, n, complete = [[]], 0, True
         results = []
@@ -811,7 +812,7 @@ def explore(ctx, drv):
             case = writer_case(sc)
             big = any(op[0] == 'w' and len(op[1]) > 1000 for op in case.script)
             forks = ()
-            if j % ctx.budget(4, 1) == 0:
+            if j % ctx.budget(6, 1) == 0:
                 forks = (True, False)
             explore_case(ctx, sb, mb, case, full=True, pairs=(j % ctx.budget(5, 2) == 0) and not big, forks=forks)
             ctx.count('script-len=%d' % min(len(sc['script']), 4))
@@ -895,6 +896,14 @@ def search(ctx):
     sb = Sandbox()
     try:
         _extras(ctx, sb)
+        # witnesses of repaired defects must pass now
+        import common
+        for k in common.load_known(PID):
+            if k.get('status') == 'fixed' and k.get('witness'):
+                for w in _rerun(ctx, sb, k['witness']) or []:
+                    ctx.witness(w['key'], 'regression of a repaired defect: ' + w['what'], w['input'])
+                ctx.case({'fixed-witness': k.get('key')}, nontrivial=True)
+                ctx.count('fixed-witness-replays')
         if ctx.witnesses:
             _shrink(ctx, sb, ctx.witnesses[0])
     finally:
@@ -925,6 +934,11 @@ def _extras(ctx, sb):
             os.unlink(target)
         ctx.case({'extra': 'missing-parent', 'exc': bool(exc)}, nontrivial=True)
     sb.drop(d)
+    # destination named tmp_<N> and absent: the writer picks the destination itself as its temp file
+    # (excluded class `dest.isTmp = false` of the theorems; open known finding `dest-named-like-temp`)
+    for w in _tmp_named_dest(sb):
+        ctx.witness(TMPDEST_KEY, w, TMPDEST_WITNESS)
+    ctx.case({'extra': 'dest-named-tmp_1'}, nontrivial=True)
     # the same writer object used twice (documented: "can be repeated")
     d = sb.fresh({DEST: OLD})
     w = AtomicWriter(os.path.join(d, DEST), is_bytes=True)
@@ -937,6 +951,24 @@ def _extras(ctx, sb):
         ctx.witness('commit-lost', f'writer object used twice leaves {show_dir(snap)}', {'kind': 'extra', 'what': 'reuse'})
     ctx.case({'extra': 'reuse'}, nontrivial=True)
     sb.drop(d)
+
+
+TMPDEST_KEY = 'dest-named-like-temp'
+TMPDEST_WITNESS = {'kind': 'writer', 'sc': {'mode': 'b', 'dest': 'tmp_1', 'script': [['w', '70617274'], ['w', '69616c']],
+                                            'exc': None, 'old': None, 'decoys': {}}, 'faults': {}}
+
+
+def _tmp_named_dest(sb):
+    """Crash states of AtomicWriter('<dir>/tmp_1') when tmp_1 does not exist: list of failure descriptions."""
+    case = writer_case(TMPDEST_WITNESS['sc'])
+    res = run_case(sb, case, None, flush=True, snaps=True)
+    bad = []
+    for k, snap in enumerate(res['snaps']):
+        got = snap.get(case.dest)
+        if got not in (case.old, case.new):
+            bad.append(f"AtomicWriter('tmp_1') with tmp_1 absent: a kill before operation {k} leaves the destination holding "
+                       f"{got!r} (old: absent, new: {case.new!r}) - the writer chose the destination as its own temp file")
+    return bad[:1]
 
 
 def _rerun(ctx, sb, inp):
@@ -1022,6 +1054,8 @@ def replay(ctx, payload):
 def replay_known(ctx, finding):
     sb = Sandbox()
     try:
+        if finding.get('key') == TMPDEST_KEY:
+            return bool(_tmp_named_dest(sb))
         ws = _rerun(ctx, sb, finding['witness'])
     finally:
         sb.close()
@@ -1036,7 +1070,9 @@ LEVEL_TEXT = ("Theorems about the small-step model of AtomicWriter (as coded; sh
               "writes only inside `with AtomicWriter(filename or self.filename)`). The model is tied to the code by the operation "
               "trace, outcome and directory bytes at every boundary of fault-injected, killed and interleaved runs.")
 LEVEL_NOTE = ("Trusted: Lean kernel + propext/Classical.choice/Quot.sound; tools/gen_save.py; harness/c12_fs.py instrumentation; "
-              "OS semantics of rename/O_EXCL are assumptions of the model. Not covered: fsync/power loss, destinations named tmp_N, "
-              "more than two writers, other processes.")
+              "OS semantics of rename/O_EXCL are assumptions of the model. Not covered: fsync/power loss, more than two writers, "
+              "other processes. Excluded class (open known finding dest-named-like-temp): destinations named tmp_N. "
+              "Genuine defect found and fixed (/repo aa138fb): tmp_N left behind when close()/replace() raised; the theorems "
+              "C12_fail_unfixed_close/_replace prove the old shape violates C12_fail.")
 TECHNIQUE = "Lean 4 invariant proofs over a small-step file-system model (rely/guarantee for two writers) + fault-injection / fork-kill / lock-step differential correspondence"
 DESIGN_REF = "DESIGN.md section 6, C12"
